@@ -1223,6 +1223,8 @@ def run(ctx: Ctx):
     mask_rows_decided_per_instance(ctx)
     subclass_switches_take_effect(ctx)
     op_lengths(ctx)
+    depot_first_layout(ctx)
+    sdvrp_delivers_what_fits(ctx)
     for cname, (path, family) in T.ENVS.items():
         env = EnvA(ctx.repo, path, cname)
         rule_a(ctx, env, family)
@@ -1373,6 +1375,57 @@ def op_lengths(ctx: Ctx, rid: str = "C01.l"):
                         ok_c = pb == nf.Poly.atom(lim[0]) + nf.Poly.atom(nrm[0]) + nf.Poly.const(c0) and 0 <= float(c0) <= 1e-5
                         why_c = f"limit used by the checker = {pb.show(3)[:100]}: stored budget (+1), return leg (+1), margin {float(c0):g} -- {ok_c}"
     ctx.ob(rid, "OPEnv.checker:limit-restored", ok_c, ck.loc if ck is not None else env.cls.methods["_step"].loc, why_c, construct="OPEnv.check_solution_validity:limit-restored")
+
+
+def depot_first_layout(ctx: Ctx, rid: str = "C01.i"):
+    """C01.i (shared as C05.m) the depot is node 0: every per-node field that gets a depot entry in `_reset` receives it IN FRONT --
+    `F.pad(x, (1, 0))` or `cat((zeros, x))`.  Padding at the end shifts the field by one node against `locs`: customer k is
+    credited the prize of customer k + 1 and the last customer gets the depot's zero; mask and checker read the same shifted
+    field, so the env stays self-consistent and only the instance's own optimum disappears."""
+    import ast
+    n = 0
+    for cname, (path, family) in T.ENVS.items():
+        ci = ctx.repo.get_class(path, cname)
+        fi = ctx.repo.resolve_method(ci, "_reset")
+        if fi is None:
+            continue
+        for c in ast.walk(fi.node):
+            if isinstance(c, ast.Call) and ast.unparse(c.func) in ("F.pad", "torch.nn.functional.pad", "pad") and len(c.args) >= 2 and isinstance(c.args[1], (ast.Tuple, ast.List)):
+                vals = [e.value if isinstance(e, ast.Constant) else None for e in c.args[1].elts]
+                n += 1
+                ok = len(vals) >= 2 and vals[0] == 1 and vals[1] == 0
+                ctx.ob(rid, f"{cname}._reset:depot-entry-in-front#{n}", ok, fi.loc,
+                       f"F.pad({ast.unparse(c.args[0])[:30]}, {tuple(vals)}): one entry in front of the last axis -- {ok}",
+                       construct=f"{fi.qualname}:depot-entry-side:{n}")
+            if isinstance(c, ast.Call) and ast.unparse(c.func) in ("torch.cat", "torch.concat") and c.args and isinstance(c.args[0], (ast.List, ast.Tuple)) and len(c.args[0].elts) == 2:
+                a, b = c.args[0].elts
+                za = isinstance(a, ast.Call) and ast.unparse(a.func) in ("torch.zeros_like", "torch.zeros")
+                zb = isinstance(b, ast.Call) and ast.unparse(b.func) in ("torch.zeros_like", "torch.zeros")
+                ctor = lambda e: isinstance(e, ast.Call) and ast.unparse(e.func).split(".")[-1] in ("ones", "zeros", "full", "ones_like", "zeros_like", "full_like", "arange")
+                if (za or zb) and not (ctor(a) and ctor(b)):
+                    n += 1
+                    ctx.ob(rid, f"{cname}._reset:depot-entry-in-front#{n}", bool(za and not zb), fi.loc,
+                           "cat((zeros, x)): the depot's zero comes first" if za and not zb else "cat((x, zeros)): the depot's zero is appended at the END",
+                           construct=f"{fi.qualname}:depot-entry-side:{n}")
+    if n < 3:
+        raise AnalysisError(f"depot entries in _reset lost: {n} < 3")
+
+
+def sdvrp_delivers_what_fits(ctx: Ctx):
+    """C01.j SDVRP `_step`: the amount delivered at a stop is min(demand left at the node, capacity - load) on EVERY path -- the
+    load written back is built from that one minimum, with no torch.where / conditional that hands out the whole demand on some
+    branch (`the vehicle just left the depot, so it is empty` is false for a customer larger than one vehicle load)."""
+    env = EnvA(ctx.repo, T.ENVS["SDVRPEnv"][0], "SDVRPEnv")
+    sl = env.slot("_step")
+    v = sl.cell("used_capacity")
+    if not isinstance(v, vg.S):
+        raise AnalysisError("SDVRPEnv._step: used_capacity not written")
+    mins = {n.id for n in vg.walk(v) if nf._fn(n) in ("torch.min", "torch.minimum") and "vehicle_capacity" in vg.cells_of(n) and "used_capacity" in vg.cells_of(n)}
+    conds = [n for n in vg.walk(v) if (nf._fn(n) == "torch.where" or n.op in ("ifexp", "phi")) and any(m_.id in mins for m_ in vg.walk(n))]
+    ok = len(mins) == 1 and not conds
+    ctx.ob("C01.j", "SDVRPEnv._step:delivers-what-fits", ok, sl.where,
+           f"{len(mins)} min(demand left, capacity - load) in the new load; conditional around it: {bool(conds)}" +
+           ("" if ok else " -- on the other branch the whole remaining demand is delivered, whatever the capacity"), construct="SDVRPEnv._step:delivered-amount")
 
 
 def mask_rows_decided_per_instance(ctx: Ctx):
